@@ -5,8 +5,8 @@
    Logon an initiator sends; a Logon that resets is number 1 with the counters at 2/1) never fail on any model trace.
    Clause 708 (every transmitted Logon with ResetSeqNumFlag=Y is number 1) holds on every trace (WireProofs.v).
    The received-reset-Logon and Logout clauses (704/705/709/710) are evaluated on every trace by c07_check (`_partial`).
-   Clause 707 (reply to an accepted reset Logon): exact step and trace theorems below; the clause AS WRITTEN in c07_check
-   (next sender number = 2) is refuted on the model when the peer's reset Logon is itself numbered above 1. *)
+   Clause 707 (reply to an accepted reset Logon: flag echoed as number 1; next sender number 2, or 3 when the peer's reset
+   Logon is itself numbered above 1 and a ResendRequest is queued as number 2) holds on every trace (LogonProofs.v). *)
 From Coq Require Import ZArith List Bool.
 From QF Require Import Base.Bytes Session.Types Session.Model Session.Spec Session.LocalProofs Session.C01Proofs Session.FrameProofs Session.TraceProofs Session.ConnectProofs Session.WireProofs Session.LogonProofs.
 Import ListNotations.
@@ -93,42 +93,34 @@ Theorem c07_reset_logon_echo_step : forall s m,
         else s_snd s' = 2 /\ s_tgt s' = 2 /\ s_to_send s' = [] /\ s_st s' = SInSession).
 Proof. exact step_logon_reset_echo. Qed.
 
-(* TRACE LEVEL, the clause as written in c07_check — FALSE of the model: a peer Logon with 141=Y numbered 5 is accepted,
-   answered by Logon(1, 141=Y), and a ResendRequest takes number 2: the next sender number is 3, not 2. *)
-Theorem c07_reset_logon_echo_refuted :
-  exists c es, free_of [707] (c07_check c (combine es (map obs_of (run_trace es (init_sess c))))) = false.
-Proof. exact c07_reset_echo_refuted. Qed.
-
-(* TRACE LEVEL, partial (missing: traces containing a directly processed reset Logon numbered above 1, for which the clause
-   is false, see above): for every configuration and every event list without such an event, clause 707 never fails. *)
-Theorem c07_reset_logon_echo_holds_on_every_trace_partial : forall c es,
-  existsb reset_logon_ahead es = false ->
+(* TRACE LEVEL: for every configuration and every event list, clause 707 of c07_check never fails on the model's trace:
+   whenever an acceptor in the logon state with nothing buffered inbound accepts (OnLogon called) a directly processed Logon
+   carrying ResetSeqNumFlag=Y, the first Logon written in that event carries 141=Y and MsgSeqNum 1, and the next sender
+   number is 2 when the received Logon is numbered at most 1 and 3 when it is numbered above 1 (MsgSeqNum too high against
+   the fresh store: the ResendRequest queued by doTargetTooHigh took number 2). *)
+Theorem c07_reset_logon_echo_holds_on_every_trace : forall c es,
   free_of [707] (c07_check c (combine es (map obs_of (run_trace es (init_sess c))))) = true.
-Proof. exact c07_reset_echo_never_fails_partial. Qed.
+Proof. exact c07_reset_echo_never_fails. Qed.
 
-(* TRACE LEVEL, exact form, all traces: with the same guard as clause 707 (echo_guard), the first Logon written in the event
-   carries the flag and number 1, and the next sender number is 2, or 3 when the peer's Logon was numbered above 1. *)
-Theorem c07_reset_logon_echo_exact_on_every_trace : forall c es,
-  echo_exact_scan c (init_obs c) (combine es (map obs_of (run_trace es (init_sess c)))) = true.
-Proof. exact c07_reset_echo_exact. Qed.
-
-(* non-vacuity: the hypothesis of the partial theorem holds and the guard fires (reset Logon numbered 1 accepted, reply
-   Logon(1, 141=Y), next sender number 2) ... *)
+(* non-vacuity: the guard of the clause fires (reset Logon numbered 1 accepted in the logon state, OnLogon called): reply
+   Logon(1, 141=Y), next sender number 2, expected number 2, inSession; c07_check and c20_check report nothing ... *)
 Example c07_reset_echo_example :
   let es := [EConnect; EIncoming (lgp_logon 1 7)] in
-  existsb reset_logon_ahead es = false /\
   map (fun o => (ob_st o, ob_hb o, ob_snd o, ob_tgt o, existsb (fun x => match x with CbOnLogon => true | _ => false end) (ob_cbs o),
                  map (fun w => (o_type w, o_seq w, field_of 141 (o_body w))) (ob_wire o)))
       (map obs_of (run_trace es (init_sess lgp_cfg)))
-  = [(ShLogon, 30, 1, 1, false, []); (ShInSession, 7, 2, 2, true, [(T_LOGON, 1, Some lgp_Y)])].
+  = [(ShLogon, 30, 1, 1, false, []); (ShInSession, 7, 2, 2, true, [(T_LOGON, 1, Some lgp_Y)])]
+  /\ c07_check lgp_cfg (lgp_trace es) = [] /\ c20_check lgp_cfg (lgp_trace es) = [].
 Proof. exact lgp_accept_example. Qed.
 
-(* ... and the failing input of the clause as written: reset Logon numbered 5 *)
+(* ... and the other branch: reset Logon numbered 5, reply Logon(1, 141=Y), one message queued (the ResendRequest, number
+   2), next sender number 3, expected number 1, recovering; c07_check reports nothing *)
 Example c07_reset_echo_ahead_example :
   let es := [EConnect; EIncoming (lgp_logon 5 7)] in
-  c07_check lgp_cfg (lgp_trace es) = [(1%nat, 707)] /\
   map (fun o => (sh_is_resend (ob_st o), ob_hb o, ob_snd o, ob_tgt o, ob_tosend o,
+                 existsb (fun x => match x with CbOnLogon => true | _ => false end) (ob_cbs o),
                  map (fun w => (o_type w, o_seq w, field_of 141 (o_body w))) (ob_wire o)))
       (map obs_of (run_trace es (init_sess lgp_cfg)))
-  = [(false, 30, 1, 1, 0, []); (true, 7, 3, 1, 1, [(T_LOGON, 1, Some lgp_Y)])].
+  = [(false, 30, 1, 1, 0, false, []); (true, 7, 3, 1, 1, true, [(T_LOGON, 1, Some lgp_Y)])]
+  /\ c07_check lgp_cfg (lgp_trace es) = [].
 Proof. exact lgp_ahead_example. Qed.
